@@ -659,6 +659,13 @@ func (o *c03Run) genFlags(r *Rng, withDeleted int) string {
 	var fl []string
 	for _, f := range pool {
 		if r.Chance(1, 4) {
+			// flags are case-insensitive: any spelling, whatever spelling the index holds (gluon 45f4598)
+			switch r.Intn(4) {
+			case 0:
+				f = strings.ToUpper(f)
+			case 1:
+				f = strings.ToLower(f)
+			}
 			fl = append(fl, f)
 		}
 	}
@@ -780,8 +787,11 @@ func (o *c03Run) genStep(r *Rng, nsess int) string {
 		kind, set := c03GenSet(r, o.peek(s, mode))
 		return fmt.Sprintf("S%d COPY %s %s %s %s", i, mode, kind, set, Pick(r, c03Mailboxes))
 	case c < 70:
-		kind, set := c03GenSet(r, o.peek(s, "sync"))
-		return fmt.Sprintf("S%d MOVE sync %s %s %s", i, kind, set, Pick(r, c03Mailboxes))
+		if o.echo != "flush" && r.Chance(1, 5) {
+			mode = "stale"
+		}
+		kind, set := c03GenSet(r, o.peek(s, mode))
+		return fmt.Sprintf("S%d MOVE %s %s %s %s", i, mode, kind, set, Pick(r, c03Mailboxes))
 	case c < 78:
 		if o.echo != "flush" && r.Chance(1, 5) {
 			mode = "stale"
